@@ -282,10 +282,7 @@ pub fn run(ctx: &Ctx, rng: Rng, rep: &mut Report) {
                     if ctx.shards > 1 && idx % ctx.shards != ctx.shard {
                         continue;
                     }
-                    // the full list is enumerated in the thorough tier; quick takes every third pair per flavour
-                    if !ctx.thorough() && (idx / flavors.len() as u64) % 3 != (rep_no % 3) {
-                        continue;
-                    }
+                    // the full list of pairs is enumerated in both tiers (quick: two flavours, one seed)
                     let seed = rng.derive(idx).next() >> 24;
                     let (p, r, f, ro, tg) = (*point, *racer, *flavor, *role, *trig);
                     let sup = supervised("gated", watchdog, move || scenario(f, p, ro, tg, r, seed));
